@@ -24,7 +24,9 @@ PROP = "C08"
 LEVEL = "exploration"
 RULE = ("(ii) complete product probe (9) x container chain of depth 1-3 over 8 nesting constructs x nested builder class {own, generic} x "
         "six dialect classes x {inline, parameterised}; (i) the same renders under the context hook plus seeded random statements of "
-        "every kind; (iii) seeded random dialect-neutral programs rendered under all six classes (15 pairs each). non-trivial = "
+        "every kind; (iv) convention-sensitive leaves (interval, boolean, array, JSON, backslash string, number, field, table, subquery, custom "
+        "function) in every operand slot of every term class of the zoo: context invariant plus 'written as when rendered alone'; "
+        "(iii) seeded random dialect-neutral programs rendered under all six classes (15 pairs each). non-trivial = "
         "depth >= 1; distinct = (probe, chain, class, dialect, mode) / program hash")
 ASSUMPTIONS = ["the convention of a dialect is what its own class renders for the probe at depth 0 (placeholders compared by kind and numbering offset)",
                "neutral subset: select/from/join/where/group by expression/having/order by, functions, CASE, arithmetic, IN, BETWEEN, subqueries; "
